@@ -130,3 +130,37 @@ func manyRequired(n int) []MField {
 	}
 	return fs
 }
+
+// corpusExt: shapes the quantifiers of C02/C10 name that the main corpus does not hold (optional
+// members with defaults of the remaining base types, enums inside containers, containers nested
+// four deep, a map of maps of lists of structs). Kept in a corpus of its own so that its cost
+// adds to, instead of multiplying, the cost of the main corpus.
+func corpusExt() *MProgram {
+	f := &MFile{Path: "a.thrift", Namespace: "a"}
+	f.Enums = []MEnum{{Name: "Color", Values: []struct {
+		Name string
+		Val  int
+	}{{"Red", 1}, {"Green", 5}}}}
+	f.Typedefs = []MTypedef{{Name: "Deep", Type: tList(tList(tList(tList(tBase("i32")))))}}
+	f.Structs = []MStruct{
+		{Kind: "struct", Name: "Leaf", Fields: []MField{
+			fld(1, "vv", "", tBase("i64")),
+			fld(2, "ow", "optional", tBase("i16"), "3"),
+		}},
+		{Kind: "struct", Name: "Ext", Fields: []MField{
+			fld(1, "oa", "optional", tBase("i16"), "3"),
+			fld(2, "ob", "optional", tBase("i64"), "-4"),
+			fld(3, "oc", "optional", tBase("double"), "2.5"),
+			fld(4, "od", "optional", tBase("byte"), "7"),
+			fld(5, "oe", "optional", tEnum("Color"), "5"),
+			fld(6, "db", "", tBase("bool"), "true"),
+			fld(7, "le", "", tList(tEnum("Color"))),
+			fld(8, "se", "optional", tSet(tEnum("Color"))),
+			fld(9, "dp", "", tTypedef("Deep")),
+			fld(10, "mm", "", tMap(tBase("string"), tMap(tBase("i32"), tList(tStruct("Leaf"))))),
+			fld(32767, "mx", "optional", tBase("i32")),
+			fld(-32768, "mn", "optional", tBase("i32")),
+		}},
+	}
+	return &MProgram{Files: []*MFile{f}}
+}
